@@ -47,11 +47,13 @@ func profileFor0(name string) *Profile {
 	switch name {
 	case "C01":
 		p.ModeBEvery, p.InjectP = 4, 0.3
+		p.SatGenesisEvery = 12
 		p.GhostTokenP = 0.008
 		p.ClassW["nearmiss"], p.ClassW["canon"] = 8, 70
 		p.W["dust"], p.W["envadmin"], p.W["byz"] = 8, 5, 8
 	case "C02":
 		p.ModeBEvery, p.InjectP = 4, 0.3
+		p.SatGenesisEvery = 8
 		p.GhostTokenP = 0.008
 		p.ScaleW = []int{4, 2, 3, 3}
 		p.W["dust"] = 8
@@ -88,10 +90,13 @@ func profileFor0(name string) *Profile {
 		p.Checkpoint = []string{"pausequeries"}
 		p.W["checkpoint"], p.W["orbadmin"] = 3, 18
 		p.Shadows = []string{"actiondiff"}
+		p.RefuseKinds = []string{"C05:action", "C06:duplicate", "C04:six", "C04:bps-zero"}
+		p.ClassW["refuse"] = 14
 		p.FeeW = []int{3, 3, 2, 1, 1}
 		p.EmptyFeeP = 0.15
 	case "C10":
 		p.Checkpoint = []string{"impostor"}
+		p.SimP = 0.3
 		p.W["checkpoint"], p.W["impostor"], p.W["orbadmin"] = 3, 8, 10
 		p.StepsMin, p.StepsMax = 15, 40
 		p.EvidenceRule = "each evaluation is one simulated run in which impostor accounts send real signed admin transactions and, at checkpoints, every Msg RPC of the module (enumerated from the protobuf service descriptors linked into the binary and filtered by the app's MsgServiceRouter) is called on a branch with signers that do not denote the authority (other accounts, module accounts, empty, malformed, fragments and paddings of the authority); distinct_nontrivial counts distinct (RPC, signer class, body kind) combinations plus abstract states."
@@ -118,6 +123,7 @@ func profileFor0(name string) *Profile {
 	case "C16":
 		p.W["sendodd"], p.W["byz"], p.W["sendout"], p.W["dust"] = 14, 10, 8, 10
 		p.RefuseKinds = []string{"C16"}
+		p.ModDepositP = 0.03
 		p.ClassW["refuse"] = 16
 		p.RouteW = []int{2, 5, 3}
 		p.InitLimitP = 0.6
